@@ -1,76 +1,111 @@
 #!/usr/bin/env python3
-"""Must-fail corpus runner.  usage: selftest.py [name-substring ...]
-Applies every change under selftest/mutants/ and seeded/ to a scratch worktree of /repo (outside /repo and /verif),
-runs the quick check of the property (or of meta.json "check_props") against it with a scratch output directory,
-and writes selftest/RESULTS.json + prints a table.  A change counts as detected when some check exits 1 with a VIOLATION line."""
-import json, os, subprocess, sys, shutil, time
+"""Must-fail corpus runner.  usage: selftest.py [-w WORKERS] [name-substring ...]
+Applies every change under selftest/mutants/ and seeded/ (and the behaviour-preserving edits under selftest/harmless/)
+to scratch worktrees of /repo (outside /repo and /verif), runs the quick check of the property (or of meta.json
+"check_props") against it in development mode (-fast) with a scratch output directory, and writes selftest/RESULTS.json
++ prints a table.  A change counts as detected when some check exits 1 with a VIOLATION line.  Several changes are
+checked at once (WORKERS worktrees, FOXVC_JOBS solver processes each)."""
+import json, os, subprocess, sys, shutil, time, threading, queue
 V = "/verif"
-WT = "/root/selftest-wt"
-OUT = "/root/selftest-out"
+BASE = "/root/selftest"
 env = dict(os.environ, GOFLAGS="-mod=mod", GOPROXY="off")
-def sh(*a, **k): return subprocess.run(a, capture_output=True, text=True, env=env, **k)
+def sh(*a, **k): return subprocess.run(a, capture_output=True, text=True, **{"env": env, **k})
+
 def main():
-    pats = sys.argv[1:]
-    sh("git", "-C", "/repo", "worktree", "remove", "--force", WT)
-    shutil.rmtree(WT, ignore_errors=True)
-    r = sh("git", "-C", "/repo", "worktree", "add", "--detach", WT, "HEAD")
-    if r.returncode: sys.exit(r.stderr)
-    # the working tree's uncommitted contract edits are part of what is checked
-    d = sh("git", "-C", "/repo", "diff").stdout
-    if d.strip():
-        subprocess.run(["git", "-C", WT, "apply"], input=d, text=True)
-        sh("git", "-C", WT, "-c", "user.name=x", "-c", "user.email=a@b", "commit", "-qam", "wip")
-    shutil.rmtree(OUT, ignore_errors=True); os.makedirs(OUT)
+    args = sys.argv[1:]
+    workers = 3
+    if args[:1] == ["-w"]:
+        workers = int(args[1]); args = args[2:]
+    pats = args
+    shutil.rmtree(BASE, ignore_errors=True); os.makedirs(BASE)
+    sh("git", "-C", "/repo", "worktree", "prune")
     # snapshot of everything the run reads, so that the corpus can run while /verif is being edited
-    shutil.copytree(os.path.join(V, "standins"), os.path.join(OUT, "standins"))
-    shutil.copy(os.path.join(V, "known_findings.json"), os.path.join(OUT, "known_findings.json"))
-    shutil.copytree(os.path.join(V, "foxvc/externs"), os.path.join(OUT, "externs"))
-    shutil.copy(os.path.join(V, "bin/foxvc"), os.path.join(OUT, "foxvc"))
+    SNAP = os.path.join(BASE, "snap"); os.makedirs(SNAP)
+    shutil.copytree(os.path.join(V, "standins"), os.path.join(SNAP, "standins"))
+    shutil.copy(os.path.join(V, "known_findings.json"), os.path.join(SNAP, "known_findings.json"))
+    shutil.copytree(os.path.join(V, "foxvc/externs"), os.path.join(SNAP, "externs"))
+    shutil.copy(os.path.join(V, "bin/foxvc"), os.path.join(SNAP, "foxvc"))
+    d = sh("git", "-C", "/repo", "diff").stdout
     results = {}
     resfile = os.path.join(V, "selftest", "RESULTS.json")
     if pats and os.path.exists(resfile):
         results = json.load(open(resfile))
-    items = []
+    items = queue.Queue()
     for kind in ("selftest/mutants", "seeded", "selftest/harmless"):
         for n in sorted(os.listdir(os.path.join(V, kind))):
             dd = os.path.join(V, kind, n)
             if os.path.exists(os.path.join(dd, "patch.diff")) and (not pats or any(p in n for p in pats)):
-                items.append((kind, n, dd))
-    for kind, n, dd in items:
-        meta = json.load(open(os.path.join(dd, "meta.json")))
-        props = meta.get("check_props") or [meta["property"]]
-        sh("git", "-C", WT, "checkout", "--", "."); sh("git", "-C", WT, "clean", "-fdq")
-        r = sh("git", "-C", WT, "apply", os.path.join(dd, "patch.diff"))
+                shutil.copytree(dd, os.path.join(SNAP, "items", n))
+                items.put((kind, n, os.path.join(SNAP, "items", n)))
+    lock = threading.Lock()
+    wenv = dict(env, FOXVC_JOBS=str(max(4, 16 // workers + 1)))
+
+    def worker(k):
+        WT = os.path.join(BASE, "wt%d" % k); OUT = os.path.join(BASE, "out%d" % k)
+        r = sh("git", "-C", "/repo", "worktree", "add", "--detach", WT, "HEAD")
         if r.returncode:
-            results[n] = {"kind": kind, "status": "patch-does-not-apply"}; print(n, "PATCH DOES NOT APPLY"); continue
-        det, first, secs, ded, bnd = [], "", 0, [], 0
-        for p in props:
-            t = time.time()
-            r = sh(os.path.join(OUT, "foxvc"), "check", "-repo", WT, "-prop", p, "-tier", "quick", "-fast", "-out", OUT, "-externs", os.path.join(OUT, "externs"))
-            secs += time.time() - t
-            failed = [l for l in r.stdout.splitlines() if l.startswith("FAILED")]
-            viol = [l for l in r.stdout.splitlines() if l.startswith("VIOLATION")]
-            for l in failed:
-                if l.startswith("FAILED bounded"): bnd += 1
-                else: ded.append(l[len("FAILED obligation "):].split(" at ")[0][:160])
-            if r.returncode == 1 and viol:
-                det.append(p)
-                # the most telling line first: a definite (non-timeout) obligation, then any obligation, then a stand-in
-                pref = [l for l in failed if l.startswith("FAILED obligation") and "(timeout)" not in l] or [l for l in failed if l.startswith("FAILED obligation")] or failed
-                if not first and pref: first = pref[0][:200]
-            elif r.returncode not in (0, 1):
-                first = first or ("exit %d: %s" % (r.returncode, (r.stdout + r.stderr)[-200:]))
-        results[n] = {"kind": kind, "property": meta["property"], "checked": props, "detected_by": det, "first": first, "seconds": round(secs, 1), "obligations_failed": ded[:12], "n_obligations_failed": len(ded), "n_definite": len([x for x in ded if "(timeout)" not in x]), "n_standin_mismatches": bnd}
-        if kind == "selftest/harmless":
-            # behaviour-preserving edits: an alarm here is a false alarm
-            results[n]["harmless"] = True
-            print("%-34s %-8s %-10s %s" % (n, ",".join(props), "FALSE-ALARM" if det else "QUIET", first[:110]), flush=True)
-            continue
-        how = "DETECTED" if det else "MISSED"
-        if det and not [x for x in ded if "(timeout)" not in x]: how = "DET-BOUNDED" if bnd else "DET-TIMEOUT"
-        print("%-34s %-8s %-11s %s" % (n, ",".join(props), how, first[:110]), flush=True)
-    sh("git", "-C", "/repo", "worktree", "remove", "--force", WT)
-    shutil.rmtree(OUT, ignore_errors=True)
+            print("worktree:", r.stderr); return
+        if d.strip():
+            # the working tree's uncommitted contract edits are part of what is checked
+            subprocess.run(["git", "-C", WT, "apply"], input=d, text=True)
+            sh("git", "-C", WT, "-c", "user.name=x", "-c", "user.email=a@b", "commit", "-qam", "wip")
+        os.makedirs(OUT)
+        os.symlink(os.path.join(SNAP, "standins"), os.path.join(OUT, "standins"))
+        os.symlink(os.path.join(SNAP, "known_findings.json"), os.path.join(OUT, "known_findings.json"))
+        while True:
+            try:
+                kind, n, dd = items.get_nowait()
+            except queue.Empty:
+                break
+            meta = json.load(open(os.path.join(dd, "meta.json")))
+            props = meta.get("check_props") or [meta["property"]]
+            sh("git", "-C", WT, "checkout", "--", "."); sh("git", "-C", WT, "clean", "-fdq")
+            r = sh("git", "-C", WT, "apply", os.path.join(dd, "patch.diff"))
+            if r.returncode:
+                with lock:
+                    results[n] = {"kind": kind, "status": "patch-does-not-apply"}; print(n, "PATCH DOES NOT APPLY", flush=True)
+                continue
+            det, first, secs, ded, bnd = [], "", 0, [], 0
+            for p in props:
+                t = time.time()
+                r = subprocess.run([os.path.join(SNAP, "foxvc"), "check", "-repo", WT, "-prop", p, "-tier", "quick", "-fast", "-out", OUT,
+                                    "-externs", os.path.join(SNAP, "externs")], capture_output=True, text=True, env=wenv)
+                secs += time.time() - t
+                out = r.stdout.replace(WT, "/repo")
+                failed = [l for l in out.splitlines() if l.startswith("FAILED")]
+                errs = [l for l in out.splitlines() if l.startswith("ERROR")]
+                viol = [l for l in out.splitlines() if l.startswith("VIOLATION")]
+                for l in failed:
+                    if l.startswith("FAILED bounded"): bnd += 1
+                    else: ded.append(l[len("FAILED obligation "):].split(" at ")[0][:160])
+                if r.returncode == 1 and viol:
+                    det.append(p)
+                    # the most telling line first: a definite (non-timeout) obligation, then any obligation, then a stand-in
+                    pref = ([l for l in failed if l.startswith("FAILED obligation") and "(timeout)" not in l]
+                            or [l for l in failed if l.startswith("FAILED obligation")] or failed or errs)
+                    if not first and pref: first = pref[0][:200]
+                elif r.returncode not in (0, 1):
+                    first = first or ("exit %d: %s" % (r.returncode, (r.stdout + r.stderr)[-200:]))
+            res = {"kind": kind, "property": meta["property"], "checked": props, "detected_by": det, "first": first, "seconds": round(secs, 1),
+                   "obligations_failed": ded[:12], "n_obligations_failed": len(ded),
+                   "n_definite": len([x for x in ded if "(timeout)" not in x]), "n_standin_mismatches": bnd}
+            how = "DETECTED" if det else "MISSED"
+            if det and not res["n_obligations_failed"]:
+                how = "DET-BOUNDED" if bnd else "DET-OTHER"
+            if kind == "selftest/harmless":
+                # behaviour-preserving edits: an alarm here is a false alarm
+                res["harmless"] = True
+                how = "FALSE-ALARM" if det else "QUIET"
+            with lock:
+                results[n] = res
+                print("%-34s %-8s %-11s %s" % (n, ",".join(props), how, first[:110]), flush=True)
+        sh("git", "-C", "/repo", "worktree", "remove", "--force", WT)
+
+    ths = [threading.Thread(target=worker, args=(k,)) for k in range(workers)]
+    for t in ths: t.start()
+    for t in ths: t.join()
+    shutil.rmtree(BASE, ignore_errors=True)
+    sh("git", "-C", "/repo", "worktree", "prune")
     json.dump(results, open(resfile, "w"), indent=1, sort_keys=True)
     breaking = {n: r for n, r in results.items() if not r.get("harmless")}
     missed = [n for n, r in breaking.items() if not r.get("detected_by")]
